@@ -11,6 +11,8 @@
 extern crate rustc_abi;
 extern crate rustc_driver;
 extern crate rustc_hir;
+extern crate rustc_infer;
+extern crate rustc_trait_selection;
 extern crate rustc_interface;
 extern crate rustc_middle;
 extern crate rustc_session;
@@ -22,6 +24,8 @@ use rustc_middle::mir::{self, interpret::GlobalAlloc, ConstValue};
 use rustc_middle::ty::print::{with_crate_prefix, with_no_trimmed_paths};
 use rustc_middle::ty::{self, Instance, Ty, TyCtxt, TypingEnv};
 use rustc_span::Span;
+use rustc_infer::infer::TyCtxtInferExt;
+use rustc_trait_selection::infer::InferCtxtExt;
 use std::fmt::Write as _;
 
 fn esc(s: &str, out: &mut String) {
@@ -669,6 +673,15 @@ impl<'tcx> Cx<'tcx> {
             let env = TypingEnv::post_analysis(tcx, did);
             let t = tcx.type_of(did).instantiate_identity().skip_norm_wip();
             let _ = write!(out, "\"freeze\":{},", t.is_freeze(tcx, env));
+            let infcx = tcx.infer_ctxt().build(ty::TypingMode::non_body_analysis());
+            for (name, sym) in [("send", rustc_span::sym::Send), ("sync", rustc_span::sym::Sync)] {
+                if let Some(tr) = tcx.get_diagnostic_item(sym) {
+                    let r = infcx
+                        .type_implements_trait(tr, [t], env.param_env)
+                        .must_apply_modulo_regions();
+                    let _ = write!(out, "\"{}\":{},", name, r);
+                }
+            }
         }
         out.push_str("\"variants\":[");
         for (vi, v) in adt.variants().iter().enumerate() {
